@@ -31,6 +31,7 @@ import (
 
 	"github.com/AdguardTeam/AdGuardHome/internal/client"
 	"github.com/AdguardTeam/AdGuardHome/internal/filtering"
+	"github.com/AdguardTeam/AdGuardHome/internal/querylog"
 	"github.com/AdguardTeam/AdGuardHome/internal/verifx/lib"
 	"github.com/AdguardTeam/AdGuardHome/internal/verifx/srv"
 	"github.com/AdguardTeam/AdGuardHome/internal/whois"
@@ -280,7 +281,8 @@ func scenarios(quick bool) (out []scenario) {
 		}
 	}
 	// Two administrative operations on the same object.
-	for _, pr := range [][2]string{{"clients-update-ids-a", "clients-update-ids-b"}, {"clients-update-ids-a", "clients-update"}, {"clients-update-ids-b", "clients-delete"}, {"clients-add", "clients-update-ids-a"}} {
+	for _, pr := range [][2]string{{"clients-update-ids-a", "clients-update-ids-b"}, {"clients-update-ids-a", "clients-update"}, {"clients-update-ids-b", "clients-delete"}, {"clients-add", "clients-update-ids-a"},
+		{"querylog-read", "querylog-config"}, {"querylog-read", "querylog-clear"}, {"stats-read", "stats-config"}, {"stats-read", "stats-reset"}} {
 		out = append(out, scenario{-1, []int{opIdx(pr[0]), opIdx(pr[1])}})
 	}
 	if !quick {
@@ -413,6 +415,10 @@ func mkBody(c *lib.Ctx, sc scenario) func() vsync.Body {
 		for ri := range requests {
 			if ri < 2 && os.Getenv("C05_NO_WARMUP") == "" {
 				_, _, _ = requests[ri].run(a)
+				if ri == 0 {
+					// One record is in the query-log file, the next in the buffer.
+					_ = querylog.VerifC08Flush(a.qlog)
+				}
 			}
 		}
 		var resp, req *dns.Msg
@@ -678,6 +684,90 @@ func runListHistory(tmp string, h []string) (vkey, vdesc string, engineErr strin
 	return "", "", ""
 }
 
+// allowOps: the same life cycle on the one allow list, which (in these
+// histories) also holds the probe name of the block list: the name is blocked
+// exactly when the allow list is absent or disabled.
+var allowOps = []string{"allow:disable", "allow:enable", "allow:refresh", "allow:remove", "allow:add"}
+
+func runAllowHistory(tmp string, h []string) (vkey, vdesc string, engineErr string) {
+	a, err := build(tmp, false)
+	if err != nil {
+		return "", "", "assembly: " + err.Error()
+	}
+	defer a.close()
+	u := filepath.Join(a.dir, "lists", "allow.txt")
+	_ = os.WriteFile(u, []byte("||allowed.test^\n||blocked.test^\n"), 0o644)
+	if code, body := a.call("POST", "/control/filtering/refresh", `{"whitelist":true}`); code != 200 {
+		return "", "", fmt.Sprintf("initial refresh of the allow list: %d %s", code, body)
+	}
+	present, enabled := true, true
+	for i := -1; i < len(h); i++ {
+		var code int
+		var body string
+		step := "start"
+		if i >= 0 {
+			step = strings.TrimPrefix(h[i], "allow:")
+		}
+		switch step {
+		case "disable", "enable":
+			if !present {
+				continue
+			}
+			code, body = a.call("POST", "/control/filtering/set_url", fmt.Sprintf(`{"url":%q,"whitelist":true,"data":{"name":"allow","url":%q,"enabled":%v}}`, u, u, step == "enable"))
+			if code == 200 {
+				enabled = step == "enable"
+			}
+		case "refresh":
+			code, body = a.call("POST", "/control/filtering/refresh", `{"whitelist":true}`)
+		case "remove":
+			if !present {
+				continue
+			}
+			code, body = a.call("POST", "/control/filtering/remove_url", fmt.Sprintf(`{"url":%q,"whitelist":true}`, u))
+			if code == 200 {
+				present = false
+			}
+		case "add":
+			if present {
+				continue
+			}
+			code, body = a.call("POST", "/control/filtering/add_url", fmt.Sprintf(`{"name":"allow","url":%q,"whitelist":true}`, u))
+			if code == 200 {
+				present, enabled = true, true
+			}
+		}
+		if code >= 500 {
+			return "list-operation-failed:allow:" + step, fmt.Sprintf("%s answered %d: %s (history %v)", step, code, body, h[:i+1]), ""
+		}
+		for {
+			ran, ierr := a.filter.VerifRunPendingInit()
+			if ierr != nil {
+				return "engine-rebuild-failed", ierr.Error(), ""
+			}
+			if !ran {
+				break
+			}
+		}
+		a.up.Reset()
+		resp, _, rerr := handle(a, &proxy.DNSContext{Req: mkReq(21, "blocked.test", dns.TypeA), Proto: proxy.ProtoUDP, Addr: netip.MustParseAddrPort("192.168.1.5:5555"), RequestID: uint64(2000 + i)})
+		if rerr != nil || resp == nil {
+			return "list-history-request-failed", fmt.Sprintf("request after %v failed: %v", h[:i+1], rerr), ""
+		}
+		asked := len(a.up.Reset())
+		blocked := asked == 0 && len(resp.Answer) == 1 && strings.Contains(resp.Answer[0].String(), "0.0.0.0")
+		want := !(present && enabled)
+		if blocked != want {
+			what := "is blocked although the allow list that names it is present and enabled"
+			if !blocked {
+				what = "is still forwarded to the upstream although the allow list that named it is disabled or removed"
+			}
+			return "rules-in-force-differ-from-enabled-lists:allow:" + map[bool]string{true: "stale-block", false: "missed-block"}[blocked],
+				fmt.Sprintf("after the allow-list operations %v a query for blocked.test (in the enabled block list) %s (upstream calls %d, answer %v)", h[:i+1], what, asked, resp.Answer), ""
+		}
+	}
+	return "", "", ""
+}
+
 // protOps: ways of switching protection (both admin endpoints) and the clock.
 var protOps = []string{"pause-1h", "off", "on", "cfg-on", "cfg-off", "advance-2h"}
 
@@ -826,7 +916,11 @@ func phaseLists(c *lib.Ctx) {
 				c.Count("evals", 1)
 				c.Count("list_histories", 1)
 				c.Distinct("nontrivial", "lists|"+strings.Join(h, ","))
-				k, d, eerr := runListHistory(c.TmpDir, h)
+				run := runListHistory
+				if strings.HasPrefix(h[0], "allow:") {
+					run = runAllowHistory
+				}
+				k, d, eerr := run(c.TmpDir, h)
 				switch {
 				case eerr != "":
 					c.EngineError(eerr)
@@ -842,8 +936,17 @@ func phaseLists(c *lib.Ctx) {
 		if len(h) == depth {
 			return
 		}
-		for _, o := range listOps {
+		ops := listOps
+		if len(h) > 0 && strings.HasPrefix(h[0], "allow:") {
+			ops = allowOps
+		}
+		for _, o := range ops {
 			rec(append(h, o))
+		}
+		if len(h) == 0 {
+			for _, o := range allowOps {
+				rec(append(h, o))
+			}
 		}
 	}
 	rec(nil)
@@ -979,7 +1082,11 @@ func replay(c *lib.Ctx, raw json.RawMessage) string {
 		if err := json.Unmarshal(raw, &lc); err != nil {
 			return err.Error()
 		}
-		k, d, eerr := runListHistory(c.TmpDir, lc.History)
+		run := runListHistory
+		if len(lc.History) > 0 && strings.HasPrefix(lc.History[0], "allow:") {
+			run = runAllowHistory
+		}
+		k, d, eerr := run(c.TmpDir, lc.History)
 		if eerr != "" {
 			return "engine: " + eerr
 		}
@@ -1060,7 +1167,7 @@ func mainC01Histories() {
 				"list_histories":       m.Counters["list_histories"],
 				"protection_histories": m.Counters["protection_histories"],
 				"distinct_nontrivial":  m.Distinct["nontrivial"],
-				"rule":                 "on the full assembly (server, filter with file lists, clients, query log, statistics) through the real admin handlers: every history of <=4 (thorough 6) list life-cycle operations (disable, enable, refresh, remove, add, source edited) and every history of <=4 (thorough 5) protection operations (timed pause, off, on, on/off through dns_config, clock +2 h); after every step a query for a name of the block list must be blocked exactly when the list is present and enabled, respectively when protection is on",
+				"rule":                 "on the full assembly (server, filter with file lists, clients, query log, statistics) through the real admin handlers: every history of <=4 (thorough 6) list life-cycle operations on the block list (disable, enable, refresh, remove, add, source edited), the same on the allow list that also names the probe (disable, enable, refresh, remove, add), and every history of <=4 (thorough 5) protection operations (timed pause, off, on, on/off through dns_config, clock +2 h); after every step a query for a name of the block list must be blocked exactly when the block list is present and enabled (and the allow list absent or disabled), respectively when protection is on",
 			}
 		},
 		Assumptions: []string{"protection_enabled=false sent through dns_config while a timed pause is running may mean 'leave as is' or 'off for good': what happens at the deadline is then not judged"},
